@@ -8,8 +8,9 @@ def Good (D : Disk) (st : St) : Prop := ∀ E, AgreeOn st D E → Correct E st
 
 theorem good_empty (D : Disk) : Good D St.empty := fun E _ => correct_empty E
 
-theorem good_cleared (D : Disk) (st : St) (h : st.lt = false) : Good D st.cleared :=
-  fun E _ => correct_of_nil E _ rfl rfl rfl h
+theorem good_cleared (D : Disk) (st : St) (h : st.lt = false) (h2 : st.legacyNorm = false) :
+    Good D st.clearedAll :=
+  fun E _ => correct_of_nil E _ rfl rfl rfl h rfl h2
 
 /-- on two disks, a file with the same name and the same mtime is the same file -/
 def SameByMtime (R D : Disk) : Prop :=
@@ -39,27 +40,20 @@ theorem SeenIn.cons {D : Disk} {seen} (h : SeenIn D seen) (p : Mod × Nat) : See
 structure Inv (w : World) (seen : List (Mod × Nat)) : Prop where
   ref : ∃ R, Good R w.st ∧ SameByMtime R w.disk ∧ SeenIn R seen
   cur : SeenIn w.disk seen
-  abs : AbsDisk w.disk
-
-theorem absDisk_spec {D : Disk} (h : absDisk D = true) : AbsDisk D := by
-  intro m f hg
-  have := get_mem D m f hg
-  simp only [absDisk, List.all_eq_true] at h
-  exact h _ this
 
 theorem init_current (D : Disk) : World.init .current D = ⟨D, St.empty⟩ := rfl
 
-theorem inv_init {D : Disk} (ha : absDisk D = true) : Inv (World.init .current D) (seenOf D) := by
+theorem inv_init (D : Disk) : Inv (World.init .current D) (seenOf D) := by
   rw [init_current]
   exact ⟨⟨D, good_empty D, fun m f f' h1 h2 _ => by
     have h1' : get D m = some f := h1
-    rw [h1'] at h2; exact Option.some.inj h2, seenIn_seenOf D⟩, seenIn_seenOf D, absDisk_spec ha⟩
+    rw [h1'] at h2; exact Option.some.inj h2, seenIn_seenOf D⟩, seenIn_seenOf D⟩
 
 theorem inv_write {w : World} {seen} (hi : Inv w seen) (m : Mod) (t : Nat) (src : Src)
-    (hsrc : absSrc src = true) (hfresh : (m, t) ∉ seen) :
+    (hfresh : (m, t) ∉ seen) :
     Inv { w with disk := (m, ⟨t, src⟩) :: w.disk } ((m, t) :: seen) := by
-  obtain ⟨⟨R, hg, hs, hR⟩, hD, hA⟩ := hi
-  refine ⟨⟨R, hg, ?_, hR.cons _⟩, ?_, ?_⟩
+  obtain ⟨⟨R, hg, hs, hR⟩, hD⟩ := hi
+  refine ⟨⟨R, hg, ?_, hR.cons _⟩, ?_⟩
   · intro k f f' h1 h2 hmt
     simp only [get_cons] at h1
     by_cases hk : m = k
@@ -74,11 +68,6 @@ theorem inv_write {w : World} {seen} (hi : Inv w seen) (m : Mod) (t : Nat) (src 
     by_cases hmk : m = k
     · simp only [hmk, if_true, Option.some.injEq] at hk; rw [← hk, hmk]; exact List.mem_cons_self
     · simp only [hmk, if_false] at hk; exact List.mem_cons_of_mem _ (hD k f hk)
-  · intro k f hk
-    simp only [get_cons] at hk
-    by_cases hmk : m = k
-    · simp only [hmk, if_true, Option.some.injEq] at hk; rw [← hk]; exact hsrc
-    · simp only [hmk, if_false] at hk; exact hA k f hk
 
 theorem anyChanged_false {D : Disk} {st : St} (h : anyChanged D st = false) (hlt : st.lt = false) {m : Mod}
     {c : Cached} (hg : get st.mcache m = some c) : stat D m = some c.mtime := by
@@ -150,100 +139,131 @@ theorem appeared_false {D : Disk} : ∀ (l : List Mod) (st s : St), appeared D l
           · simp only [List.mem_filter] at h; exact Or.inl h.1
         · exact Or.inr (List.mem_cons_of_mem _ h)
 
-theorem getModule_lt (D : Disk) (st : St) (m : Mod) : (getModule D st m).2.lt = st.lt := by
+theorem getModule_knobs (D : Disk) (st : St) (m : Mod) :
+    (getModule D st m).2.lt = st.lt ∧ (getModule D st m).2.legacyNorm = st.legacyNorm := by
   unfold getModule
   split
-  · rfl
+  · exact ⟨rfl, rfl⟩
   · split
     · split
       · unfold load; split <;> simp
-      · rfl
+      · exact ⟨rfl, rfl⟩
     · unfold load; split <;> simp
 
-theorem appeared_lt {D : Disk} : ∀ (l : List Mod) (st s : St) {b : Bool}, appeared D l st = (b, s) → s.lt = st.lt := by
+theorem appeared_knobs {D : Disk} : ∀ (l : List Mod) (st s : St) {b : Bool}, appeared D l st = (b, s) →
+    s.lt = st.lt ∧ s.legacyNorm = st.legacyNorm ∧ s.norm = st.norm := by
   intro l
   induction l with
-  | nil => intro st s b h; simp only [appeared, Prod.mk.injEq] at h; rw [← h.2]
+  | nil => intro st s b h; simp only [appeared, Prod.mk.injEq] at h; rw [← h.2]; exact ⟨rfl, rfl, rfl⟩
   | cons m rest ih =>
     intro st s b h
     simp only [appeared] at h
-    have hl := getModule_lt D { st with missing := st.missing.filter (· ≠ m) } m
+    have hl := getModule_knobs D { st with missing := st.missing.filter (· ≠ m) } m
+    have hn := getModule_norm D { st with missing := st.missing.filter (· ≠ m) } m
     rcases hgm : getModule D { st with missing := st.missing.filter (· ≠ m) } m with ⟨b1, st1⟩
-    rw [hgm] at h hl
+    rw [hgm] at h hl hn
     cases b1 with
-    | true => simp only [Prod.mk.injEq] at h; rw [← h.2]; exact hl
-    | false => dsimp only at h; rw [ih _ _ h]; exact hl
+    | true => simp only [Prod.mk.injEq] at h; rw [← h.2]; exact ⟨hl.1, hl.2, hn⟩
+    | false =>
+      dsimp only at h
+      obtain ⟨i1, i2, i3⟩ := ih _ _ h
+      exact ⟨i1.trans hl.1, i2.trans hl.2, i3.trans hn⟩
+
+theorem lookup_mem : ∀ (c : Norm.Cache) (root : Norm.Dir) (ps : List Nat),
+    Norm.lookup c root = some ps → (root, ps) ∈ c
+  | [], _, _, h => by cases h
+  | (k, v) :: r, root, ps, h => by
+    rw [lookup_cons] at h
+    by_cases hk : k = root
+    · rw [if_pos hk] at h; simp only [Option.some.injEq] at h; rw [← hk, ← h]; exact List.mem_cons_self
+    · rw [if_neg hk] at h; exact List.mem_cons_of_mem _ (lookup_mem r root ps h)
 
 theorem correct_ctx_nil {E : Disk} {st : St} (h : Correct E st) : Correct E { st with ctx := [] } :=
-  ⟨h.valid, h.miss, by simp, h.table, h.refs, h.modIn, h.tabAbs, h.refAbs, h.mode⟩
+  ⟨h.valid, h.miss, by simp, h.table, h.refs, h.modIn, h.refsR, h.norm, h.mode, h.mode2⟩
 
 /-- entering `check_changes` makes the state good for the disk as it is now -/
 theorem checkChanges_good {R D : Disk} {st : St} (hg : Good R st) (hs : SameByMtime R D) :
     Good D (checkChanges .current D st) := by
-  have hlt : st.lt = false := (hg R (agreeOn_refl _ _)).mode
-  simp only [checkChanges]
+  have hcR : Correct R st := hg R (agreeOn_refl _ _)
+  have hlt : st.lt = false := hcR.mode
+  have hlg : st.legacyNorm = false := hcR.mode2
+  simp only [checkChanges, checkNow]
   cases hch : anyChanged D { st with ctx := [] } with
-  | true => simp only [if_true]; exact good_cleared D _ hlt
+  | true => simp only [if_true]; exact good_cleared D _ hlt hlg
   | false =>
     simp only [Bool.false_eq_true, if_false]
     rcases hap : appeared D st.missing { st with ctx := [] } with ⟨b, s⟩
+    obtain ⟨k1, k2, k3⟩ := appeared_knobs _ _ _ hap
     cases b with
-    | true => exact good_cleared D _ hlt
+    | true => exact good_cleared D _ hlt hlg
     | false =>
       dsimp only
-      obtain ⟨h1, h2, h3, h4, h5⟩ := appeared_false _ _ _ hap hch hlt
-      have hcR : Correct R st := hg R (agreeOn_refl _ _)
-      -- the reference disk and the present disk agree on the footprint
-      have hRD : ∀ m, foot st m → get D m = get R m := by
-        intro m hf
-        rcases hf with hf | hf
-        · cases hgm : get st.mcache m with
-          | none => simp [hgm] at hf
-          | some c =>
-            obtain ⟨f', hf', hmt⟩ := hcR.valid m c hgm
-            have hst := anyChanged_false hch hlt (m := m) (c := c) hgm
-            unfold stat at hst
-            cases hd : get D m with
-            | none => simp [hd] at hst
-            | some f =>
-              rw [hd] at hst; simp only [Option.map_some, Option.some.injEq] at hst
-              rw [hf', hs m f f' hd hf' (by rw [hst, hmt])]
-        · rw [h3 m hf, hcR.miss m hf]
-      intro E hag
-      have hfoot : ∀ m, foot st m → foot s m := by
-        intro m hf
-        rcases hf with hf | hf
-        · left; rw [h1]; exact hf
-        · right; exact h4 m hf
-      have hcE : Correct E st := hg E (fun m hf => by rw [hag m (hfoot m hf), hRD m hf])
-      have hslt : s.lt = false := by
-        have := (hg E (fun m hf => by rw [hag m (hfoot m hf), hRD m hf])).mode
-        -- `appeared` does not touch the knob
-        exact appeared_lt _ _ _ hap ▸ this
-      refine ⟨?_, ?_, ?_, ?_, ?_, ?_, ?_, ?_, hslt⟩
-      · rw [h1]; exact hcE.valid
-      · intro k hk
-        rw [hag k (Or.inr hk)]
-        rcases h5 k hk with h | h <;> exact h3 k h
-      · rw [h2]; simp
-      · rw [h1]; exact hcE.table
-      · rw [h1]; exact hcE.refs
-      · rw [h1]; exact hcE.modIn
-      · rw [h1]; exact hcE.tabAbs
-      · rw [h1]; exact hcE.refAbs
+      cases hrn : renormed D s with
+      | true => simp only [if_true]; exact good_cleared D _ (k1.trans hlt) (k2.trans hlg)
+      | false =>
+        simp only [Bool.false_eq_true, if_false]
+        obtain ⟨h1, h2, h3, h4, h5⟩ := appeared_false _ _ _ hap hch hlt
+        -- the reference disk and the present disk agree on the footprint
+        have hRD : ∀ m, foot st m → get D m = get R m := by
+          intro m hf
+          rcases hf with hf | hf
+          · cases hgm : get st.mcache m with
+            | none => simp [hgm] at hf
+            | some c =>
+              obtain ⟨f', hf', hmt⟩ := hcR.valid m c hgm
+              have hst := anyChanged_false hch hlt (m := m) (c := c) hgm
+              unfold stat at hst
+              cases hd : get D m with
+              | none => simp [hd] at hst
+              | some f =>
+                rw [hd] at hst; simp only [Option.map_some, Option.some.injEq] at hst
+                rw [hf', hs m f f' hd hf' (by rw [hst, hmt])]
+          · rw [h3 m hf, hcR.miss m hf]
+        -- and no cached directory has another package path now
+        have hPD : ∀ root ps, Norm.lookup st.norm root = some ps → pParts D root = pParts R root := by
+          intro root ps hl
+          have hmem := lookup_mem _ _ _ hl
+          have hk3 : s.norm = st.norm := k3
+          simp only [renormed, List.any_eq_false, hk3] at hrn
+          have := hrn _ hmem
+          simp only [bne_iff_ne, ne_eq, Decidable.not_not] at this
+          rw [← hcR.norm root ps hl]; exact this
+        intro E hag
+        have hfoot : ∀ m, foot st m → foot s m := by
+          intro m hf
+          rcases hf with hf | hf
+          · left; rw [h1]; exact hf
+          · right; exact h4 m hf
+        have hk3 : s.norm = st.norm := k3
+        have hagR : AgreeOn st R E :=
+          ⟨fun m hf => by rw [hag.files m (hfoot m hf), hRD m hf],
+           fun root ps hl => by rw [hag.parts root ps (by rw [hk3]; exact hl), hPD root ps hl]⟩
+        have hcE : Correct E st := hg E hagR
+        refine ⟨?_, ?_, ?_, ?_, ?_, ?_, ?_, ?_, k1.trans hlt, k2.trans hlg⟩
+        · rw [h1]; exact hcE.valid
+        · intro k hk
+          rw [hag.files k (Or.inr hk)]
+          rcases h5 k hk with h | h <;> exact h3 k h
+        · rw [h2]; simp
+        · rw [h1]; exact hcE.table
+        · rw [h1]; exact hcE.refs
+        · rw [h1]; exact hcE.modIn
+        · rw [h1]; exact hcE.refsR
+        · rw [hk3]; exact hcE.norm
+
+theorem checkChanges_empty (D : Disk) : checkChanges .current D St.empty = St.empty := by
+  simp [checkChanges, checkNow, anyChanged, appeared, renormed, St.empty]
 
 theorem fresh_eq (fuel : Nat) (D : Disk) (q : Query) :
     fresh fuel D q = match runQuery D fuel St.empty q with
       | .ok r => r.1
       | .error _ => .recursion := by
-  simp only [fresh, request, checkChanges, anyChanged, St.empty, List.any_nil, Bool.false_eq_true, if_false,
-    appeared]
-  cases runQuery D fuel ⟨[], [], [], [], false⟩ q <;> rfl
+  simp only [fresh, request, checkChanges_empty]
+  cases runQuery D fuel St.empty q <;> rfl
 
 /-- one request on a good-after-`check_changes` world: the new state is good for the disk, and the answer
     is the fresh project's unless one of the two ran into the recursion limit -/
-theorem request_spec {R D : Disk} {st : St} (fuel : Nat) (q : Query) (hg : Good R st) (hs : SameByMtime R D)
-    (hD : AbsDisk D) :
+theorem request_spec {R D : Disk} {st : St} (fuel : Nat) (q : Query) (hg : Good R st) (hs : SameByMtime R D) :
     Good D (request .current fuel D st q).2 ∧
     ((request .current fuel D st q).1 ≠ .recursion → fresh fuel D q ≠ .recursion →
       (request .current fuel D st q).1 = fresh fuel D q) := by
@@ -253,78 +273,71 @@ theorem request_spec {R D : Disk} {st : St} (fuel : Nat) (q : Query) (hg : Good 
   | error e => exact ⟨hg0, fun h => absurd rfl h⟩
   | ok r =>
     obtain ⟨a, st'⟩ := r
-    refine ⟨fun E hag => runQuery_correct hD (hg0 E (hag.mono (runQuery_mono hrq))) hrq hag, fun _ hf => ?_⟩
+    refine ⟨fun E hag => runQuery_correct (hg0 E (hag.mono (runQuery_mono hrq))) hrq hag, fun _ hf => ?_⟩
     rw [fresh_eq] at hf ⊢
     cases hfr : runQuery D fuel St.empty q with
     | error e => rw [hfr] at hf; exact absurd rfl hf
     | ok r' =>
-      exact runQuery_agree hD (hg0 D (agreeOn_refl _ _)) (correct_empty D) hrq hfr
+      exact runQuery_agree (hg0 D (agreeOn_refl _ _)) (correct_empty D) hrq hfr
 
 theorem sameByMtime_refl (D : Disk) : SameByMtime D D :=
   fun m f f' h1 h2 _ => by rw [h1] at h2; exact Option.some.inj h2
 
 theorem inv_request {fuel : Nat} {w : World} {seen} (hi : Inv w seen) (q : Query) :
     Inv (step .current fuel w (.request q)).1 seen := by
-  obtain ⟨⟨R, hg, hs, hR⟩, hD, hA⟩ := hi
-  exact ⟨⟨w.disk, (request_spec fuel q hg hs hA).1, sameByMtime_refl _, hD⟩, hD, hA⟩
+  obtain ⟨⟨R, hg, hs, hR⟩, hD⟩ := hi
+  exact ⟨⟨w.disk, (request_spec fuel q hg hs).1, sameByMtime_refl _, hD⟩, hD⟩
+
+theorem inv_skip {w : World} {seen} (hi : Inv w seen) (p : Mod × Nat) : Inv w (p :: seen) :=
+  ⟨by obtain ⟨R, h1, h2, h3⟩ := hi.ref; exact ⟨R, h1, h2, h3.cons _⟩, hi.cur.cons _⟩
 
 /-- every request of a history is answered like a fresh project on the disk of that moment -/
 theorem run_transparent {fuel : Nat} : ∀ (ops : List Op) {w : World} {seen}, Inv w seen →
-    freshMtimes seen ops = true → ops.all Op.isAbs = true →
+    freshMtimes seen ops = true →
     ∀ r, r ∈ run .current fuel w ops → r.2.2 ≠ .recursion → fresh fuel r.1 r.2.1 ≠ .recursion →
       r.2.2 = fresh fuel r.1 r.2.1
-  | [], _, _, _, _, _, r, hr => by simp [run] at hr
-  | op :: ops, w, seen, hi, hfr, hops, r, hr => by
-    simp only [List.all_cons, Bool.and_eq_true] at hops
+  | [], _, _, _, _, r, hr => by simp [run] at hr
+  | op :: ops, w, seen, hi, hfr, r, hr => by
     cases op with
     | write m t src =>
       simp only [freshMtimes, Bool.and_eq_true, Bool.not_eq_true', List.contains_eq_mem,
         decide_eq_false_iff_not] at hfr
       simp only [run, step] at hr
-      exact run_transparent ops (inv_write hi m t src hops.1 hfr.1) hfr.2 hops.2 r hr
+      exact run_transparent ops (inv_write hi m t src hfr.1) hfr.2 r hr
     | touch m t =>
       simp only [freshMtimes, Bool.and_eq_true, Bool.not_eq_true', List.contains_eq_mem,
         decide_eq_false_iff_not] at hfr
       simp only [run, step] at hr
       cases hg : get w.disk m with
-      | none =>
-        rw [hg] at hr
-        exact run_transparent ops ⟨by obtain ⟨R, h1, h2, h3⟩ := hi.ref; exact ⟨R, h1, h2, h3.cons _⟩,
-          hi.cur.cons _, hi.abs⟩ hfr.2 hops.2 r hr
-      | some f =>
-        rw [hg] at hr
-        exact run_transparent ops (inv_write hi m t f.src (hi.abs m f hg) hfr.1) hfr.2 hops.2 r hr
+      | none => rw [hg] at hr; exact run_transparent ops (inv_skip hi _) hfr.2 r hr
+      | some f => rw [hg] at hr; exact run_transparent ops (inv_write hi m t f.src hfr.1) hfr.2 r hr
     | request q =>
       simp only [freshMtimes] at hfr
       simp only [run, step] at hr
       rcases List.mem_cons.1 hr with rfl | hr
-      · obtain ⟨⟨R, hg, hs, _⟩, _, hA⟩ := hi
-        exact (request_spec fuel q hg hs hA).2
-      · exact run_transparent ops (inv_request (fuel := fuel) hi q) hfr hops.2 r hr
+      · obtain ⟨⟨R, hg, hs, _⟩, _⟩ := hi
+        exact (request_spec fuel q hg hs).2
+      · exact run_transparent ops (inv_request (fuel := fuel) hi q) hfr r hr
 
-/-- the invariant holds after any history with fresh mtimes and absolute imports -/
+/-- the invariant holds after any history with fresh mtimes -/
 theorem inv_exec {fuel : Nat} : ∀ (ops : List Op) {w : World} {seen}, Inv w seen →
-    freshMtimes seen ops = true → ops.all Op.isAbs = true →
-    ∃ seen', Inv (exec .current fuel w ops) seen'
-  | [], _, seen, hi, _, _ => ⟨seen, hi⟩
-  | op :: ops, w, seen, hi, hfr, hops => by
-    simp only [List.all_cons, Bool.and_eq_true] at hops
+    freshMtimes seen ops = true → ∃ seen', Inv (exec .current fuel w ops) seen'
+  | [], _, seen, hi, _ => ⟨seen, hi⟩
+  | op :: ops, w, seen, hi, hfr => by
     cases op with
     | write m t src =>
       simp only [freshMtimes, Bool.and_eq_true, Bool.not_eq_true', List.contains_eq_mem,
         decide_eq_false_iff_not] at hfr
-      exact inv_exec ops (inv_write hi m t src hops.1 hfr.1) hfr.2 hops.2
+      exact inv_exec ops (inv_write hi m t src hfr.1) hfr.2
     | touch m t =>
       simp only [freshMtimes, Bool.and_eq_true, Bool.not_eq_true', List.contains_eq_mem,
         decide_eq_false_iff_not] at hfr
       simp only [exec, step]
       cases hg : get w.disk m with
-      | none =>
-        exact inv_exec ops ⟨by obtain ⟨R, h1, h2, h3⟩ := hi.ref; exact ⟨R, h1, h2, h3.cons _⟩,
-          hi.cur.cons _, hi.abs⟩ hfr.2 hops.2
-      | some f => exact inv_exec ops (inv_write hi m t f.src (hi.abs m f hg) hfr.1) hfr.2 hops.2
+      | none => exact inv_exec ops (inv_skip hi _) hfr.2
+      | some f => exact inv_exec ops (inv_write hi m t f.src hfr.1) hfr.2
     | request q =>
       simp only [freshMtimes] at hfr
-      exact inv_exec ops (inv_request (fuel := fuel) hi q) hfr hops.2
+      exact inv_exec ops (inv_request (fuel := fuel) hi q) hfr
 
 end SuppModel.Proj
